@@ -802,6 +802,65 @@ def oracle_circular(a):
     return None
 
 
+# ----------------------------------------------------------------- inner classes / reference classes
+
+
+def impl_rename_inners(a):
+    from xsdata.codegen.handlers import VacuumInnerClasses
+
+    def run():
+        ns = a.get("ns")
+        q = lambda n: ("{%s}%s" % (ns, n)) if ns else n  # noqa: E731
+        target = Class(qname=q("outer"), tag=Tag.COMPLEX_TYPE, location="l")
+        inners = [Class(qname=q(n), tag=Tag.COMPLEX_TYPE, location="l") for n in a["names"]]
+        for i in inners:
+            i.parent = target
+        target.inner = list(inners)
+        VacuumInnerClasses.rename_duplicate_inners(target)
+        return [i.name for i in inners]
+
+    return _guard(run)
+
+
+INNER_NAMES = ["a", "A", "a_", "x-1", "x1", "x_1", "X1", "a⁰", "a名", "b", "x1_1", "x11", "x-1_1", "é", "_", "value", "Value"]
+
+
+def gen_rename_inners(rng, tier):
+    for h in (["x-1", "x1"], ["a⁰", "a名", "a"], ["a", "b"], ["x1", "x-1", "x1_1", "X1"], [], ["é", "_"]):
+        yield {"names": h, "ns": None}
+    for combo in itertools.product(["a", "A", "a_1", "a1", "b"], repeat=3):
+        yield {"names": list(combo), "ns": "urn:x"}
+    for _ in range(300 if tier == "quick" else 6000):
+        pool = rng.sample(INNER_NAMES, rng.randint(2, 6))
+        yield {"names": [rng.choice(pool) for _ in range(rng.randint(1, 6))], "ns": rng.choice([None, "urn:x"])}
+
+
+def impl_ref_class_qname(a):
+    from xsdata.codegen.models import Restrictions
+
+    def run():
+        config = GeneratorConfig()
+        config.output.unnest_classes = not a["inner"]
+        container = ClassContainer(config)
+        source = Class(qname=a["source"], tag=Tag.COMPLEX_TYPE, location="l")
+        source.inner = [Class(qname=n, tag=Tag.COMPLEX_TYPE, location="l") for n in a["inner_names"]]
+        choice = Attr(tag=Tag.ELEMENT, name=a["name"], namespace=a["choice_ns"], restrictions=Restrictions())
+        return DisambiguateChoices(container).create_ref_class(source, choice, inner=a["inner"]).qname
+
+    return _guard(run)
+
+
+def gen_ref_class_qname(rng, tier):
+    srcs = ["t", "{urn:x}t", "{http://a/b}T", "{urn:x}a_b"]
+    names = ["a", "A", "a_1", "x-1", "a名"]
+    for src in srcs:
+        for n in names:
+            for cns in (None, "", "urn:x", "urn:other"):
+                for inner in (False, True):
+                    yield {"source": src, "name": n, "choice_ns": cns, "inner": inner,
+                           "inner_names": rng.sample(["a", "A_1", "a1", "b", "x1", "a_2"], rng.randint(0, 4)) if inner else []}
+
+
 
 def classify_safe(a, out):
     if "err" in out:
@@ -853,6 +912,12 @@ CORRS = [
          classify=classify_circular, nontrivial=lambda a, o: len(a["order"]) > 1),
     Corr("names.is_circular", gen_is_circular, impl_is_circular,
          describe="DetectCircularReferences.is_circular(start, stop)", classify=classify_circular),
+    Corr("names.rename_inners", gen_rename_inners, impl_rename_inners, nontrivial=lambda a, o: len(a["names"]) > 1,
+         describe="VacuumInnerClasses.rename_duplicate_inners: names of the inner classes of one class",
+         classify=lambda a, o: "err" if "err" in o else ("renamed" if o["ok"] != a["names"] else "unchanged")),
+    Corr("names.ref_class_qname", gen_ref_class_qname, impl_ref_class_qname,
+         describe="DisambiguateChoices.create_ref_class: qname of the class created for an ambiguous choice",
+         classify=lambda a, o: ("inner" if a["inner"] else "root") + (":err" if "err" in o else "")),
     Corr("names.rename_classes", gen_rename_classes, impl_rename_classes, nontrivial=lambda a, o: len(a["classes"]) > 1,
          describe="RenameDuplicateClasses.run (renames only)",
          classify=lambda a, o: "renamed" if o.get("ok") != [c["qname"] for c in a["classes"]] else "unchanged"),
@@ -1226,12 +1291,32 @@ def build_xsd(spec):
 
     out = [f'<xs:schema xmlns:xs="{XS}"' + (f' targetNamespace="{esc(spec["tns"])}" xmlns="{esc(spec["tns"])}"' if spec.get("tns") else "") + ">"]
     for t in spec["types"]:
-        out.append(f'<xs:complexType name="{esc(t["name"])}"' + (' abstract="true"' if t.get("abstract") else "") + "><xs:sequence>")
+        # elements: a name (xs:string), [name, type] (a complexType of the schema, optional) or
+        # [name, None, [inner elements]] (anonymous complexType = inner class);
+        # "model": sequence | choice (repeating choice: compound field material); "base": extension
+        out.append(f'<xs:complexType name="{esc(t["name"])}"' + (' abstract="true"' if t.get("abstract") else "") + ">")
+        if t.get("base"):
+            out.append(f'<xs:complexContent><xs:extension base="{esc(t["base"])}">')
+        model = t.get("model", "sequence")
+        out.append('<xs:choice maxOccurs="unbounded">' if model == "choice" else "<xs:sequence>")
         for e in t["elements"]:
-            out.append(f'<xs:element name="{esc(e)}" type="xs:string"/>')
-        out.append("</xs:sequence>")
+            if isinstance(e, str):
+                out.append(f'<xs:element name="{esc(e)}" type="xs:string"/>')
+            elif len(e) == 2:
+                out.append(f'<xs:element name="{esc(e[0])}" type="{esc(e[1])}" minOccurs="0"/>')
+            else:
+                out.append(f'<xs:element name="{esc(e[0])}" minOccurs="0"><xs:complexType><xs:sequence>')
+                for ie in e[2]:
+                    if isinstance(ie, str):
+                        out.append(f'<xs:element name="{esc(ie)}" type="xs:string"/>')
+                    else:
+                        out.append(f'<xs:element name="{esc(ie[0])}" type="{esc(ie[1])}" minOccurs="0"/>')
+                out.append("</xs:sequence></xs:complexType></xs:element>")
+        out.append("</xs:choice>" if model == "choice" else "</xs:sequence>")
         for at in t["attributes"]:
             out.append(f'<xs:attribute name="{esc(at)}" type="xs:string"/>')
+        if t.get("base"):
+            out.append("</xs:extension></xs:complexContent>")
         out.append("</xs:complexType>")
     for el in spec["elements"]:
         out.append(f'<xs:element name="{esc(el["name"])}" type="{esc(el["type"])}"/>')
@@ -1439,6 +1524,31 @@ def bind_and_instantiate(g):
     return None
 
 
+def masked_import_error(g, opts, kind):
+    """`ResourceTransformer.process` reports *every* ImportError of `validate_imports` as
+    CodegenError("Circular Dependencies Found"). That is the generator's own error type for the two
+    situations it cannot lay out — a module file next to a package directory of the same name, and a
+    genuine import cycle between modules of a style that does not cluster cycles — but it must not
+    hide a package that simply does not import."""
+    cause = g.error.__cause__ or g.error.__context__
+    if not isinstance(cause, ImportError):
+        return None
+    style = opts.get("style", "filenames")
+    what = (f"the generated package does not import ({type(cause).__name__}: {str(cause).split(' (')[0][:110]}), "
+            f"reported as CodegenError('{g.error}') under structure style {style}")
+    if kind != "xsd2":
+        # one schema file / one sample, one namespace: every style has a layout for it (one module, or
+        # one module per cluster), so nothing can excuse an ImportError
+        return what
+    files = set(g.sources())
+    clash = any(f[:-3] + "/__init__.py" in files for f in files if f.endswith(".py") and not f.endswith("__init__.py"))
+    if clash:
+        return None  # layout limit: module `p/m.py` and package `p/m/` (two namespaces / a class and a namespace)
+    if "partially initialized module" in str(cause) and style in ("filenames", "namespaces"):
+        return None  # documented limit of these styles: modules that need each other
+    return what
+
+
 def oracle_pipeline(a):
     """End to end on the real generator: generation ends (only CodegenError may escape), every file
     written is valid Python without duplicate members / classes, every module imports, every class
@@ -1451,7 +1561,7 @@ def oracle_pipeline(a):
             return msg
         if g.error is not None:
             if isinstance(g.error, CodegenError):
-                return None  # the generator's own error type
+                return masked_import_error(g, opts, a["kind"])  # the generator's own error type, unless it hides a defect
             if isinstance(g.error, (KeyboardInterrupt, SystemExit)):
                 raise g.error
             return f"generation raised {type(g.error).__name__}: {str(g.error)[:80]} (not CodegenError)"
@@ -1482,7 +1592,13 @@ def _all_names(a):
         sp = a["spec"]
         out = [seg for seg in re.split(r"[:/.]", sp.get("tns") or "") if seg]
         for t in sp["types"]:
-            out += [t["name"], *t["elements"], *t["attributes"]]
+            out += [t["name"], *t["attributes"]]
+            for e in t["elements"]:
+                if isinstance(e, str):
+                    out.append(e)
+                else:
+                    out.append(e[0])
+                    out += [ie if isinstance(ie, str) else ie[0] for ie in (e[2] if len(e) > 2 else [])]
         out += [e["name"] for e in sp["elements"]]
         for en in sp["enums"]:
             out += [en["name"], *en["values"]]
@@ -1543,6 +1659,9 @@ def covered_pipeline(a, msg):
         # enumerations carry no Meta.name, so the source names are looked up in the input
         # (a class may first have received a numeric suffix from RenameDuplicateClasses)
         variants = [(n, n) for n in names] + [(f"{n}_{k}", n) for n in names for k in range(1, 10)]
+        if a.get("opts", {}).get("unnest"):
+            # an unnested inner class is called parent_inner (its Meta carries no name: it shows as the class name)
+            variants += [(f"{p}_{n}", final) for p in set(names) for n in set(names)]
         cands = {(v, base) for v, base in variants if ref_safe_name(v, "type", ccase) == final}
         for x, bx in cands:
             for y, by in cands:
@@ -1600,6 +1719,51 @@ def gen_pipeline(rng, tier):
     for h in hand:
         for o in matrix:
             yield {**h, "opts": dict(o)}
+    # complex types that refer to each other: cycles, extension chains, inner classes, repeating
+    # choices with equal types (DetectCircularReferences, CreateCompoundFields, DisambiguateChoices,
+    # UnnestInnerClasses, VacuumInnerClasses, class order and imports inside / across modules)
+    tnames_pool = ["A", "b", "a_b", "class", "None", "T1", "x-y", "a", "Inner", "value", "é", "Node", "node", "a.b"]
+    for _ in range(120 if tier == "quick" else 2500):
+        names = rng.sample(tnames_pool, rng.randint(2, 5))
+        enames = rng.sample(XML_NAMES[:40], 6)
+        types = []
+        shape = rng.choice(["random", "ring", "tree", "self"])
+        for k, nm in enumerate(names):
+            els = []
+            for j in range(rng.randint(0, 3)):
+                r2 = rng.random()
+                if shape == "ring":
+                    tgt = names[(k + 1) % len(names)]
+                elif shape == "self":
+                    tgt = nm
+                elif shape == "tree":
+                    tgt = names[min(len(names) - 1, k + 1 + rng.randint(0, 1))]
+                else:
+                    tgt = rng.choice(names)
+                if r2 < 0.55:
+                    els.append([rng.choice(enames), tgt])
+                elif r2 < 0.7:
+                    els.append([rng.choice(enames), None, [[rng.choice(enames), rng.choice(names)], rng.choice(enames)]])
+                else:
+                    els.append(rng.choice(enames))
+            # the same element name twice in a sequence is legal only with the same type: keep the first
+            seen_e, uniq_e = set(), []
+            for e in els:
+                nm_e = e if isinstance(e, str) else e[0]
+                if nm_e not in seen_e:
+                    seen_e.add(nm_e)
+                    uniq_e.append(e)
+            t = {"name": nm, "elements": uniq_e, "attributes": [rng.choice(enames)] if rng.random() < 0.3 else [],
+                 "abstract": rng.random() < 0.1, "model": "choice" if rng.random() < 0.35 else "sequence"}
+            if k > 0 and rng.random() < 0.3:
+                t["base"] = names[rng.randrange(0, k)]
+            types.append(t)
+        opts = {"style": rng.choice(STYLES), "compound": rng.random() < 0.5, "unnest": rng.random() < 0.4,
+                "wrapper": rng.random() < 0.15}
+        for k2, pr in (("frozen", 0.2), ("slots", 0.2), ("relative_imports", 0.3), ("generic_collections", 0.2)):
+            if rng.random() < pr:
+                opts[k2] = True
+        yield xsd(types, [{"name": rng.choice(enames), "type": rng.choice(names)}], [], rng.choice([None, None, "urn:x"]), **opts)
     for _ in range(40 if tier == "quick" else 600):
         pool = rng.sample(XML_NAMES, 8)
         pool = [x for x in pool if x != "\u2fe0"] or ["a"]
@@ -1735,6 +1899,7 @@ ORACLES = [
     Oracle("c07.fields", gen_oracle_fields, oracle_fields, covered_fields, from_ops=("names.rename_attrs", "names.e2e_fields")),
     Oracle("c07.classes", gen_oracle_classes, oracle_classes, covered_classes, from_ops=("names.rename_classes",)),
     Oracle("c07.fresh", gen_oracle_fresh, oracle_fresh, from_ops=("names.unique_name", "names.next_qname", "names.next_available_name"), adapt=adapt_fresh),
+    Oracle("c07.circular", gen_detect_circular, oracle_circular, from_ops=("names.detect_circular",)),
     Oracle("c07.pipeline", gen_pipeline, oracle_pipeline, covered_pipeline, from_ops=("c07.e2e", "names.e2e_fields"),
            adapt=lambda op, a: a if op == "c07.e2e" else adapt_pipeline(op, a)),
 ]
